@@ -21,8 +21,17 @@ EvalJ(e, js, kind) ==
    dom |-> kind = "domain", exact |-> kind = "exact"]
 EvalT(e, B, p, T1, T2, T3) ==
   EvalJ(e, [i \in 1..Len(e.outs) |-> JudgeLevels(B, p, e.outs[i].out, T1, T2, T3)], T1.kind)
-EvalQ(e, B, p, xq, yq, nb1) ==
-  EvalT(e, B, p, Truth(e.op, xq, yq, e.n, nb1), Truth(e.op, xq, yq, e.n, 2 * nb1 + 8), Truth(e.op, xq, yq, e.n, 4 * nb1 + 24))
+\* second truth: for powf first try to recognise a rational power near the returned value
+FirstOk(e) == FoldLeft(LAMBDA acc, g : IF acc = 0 /\ g[2].out.k = "ok" THEN (IF g[2].out.v.v.inf = 0 /\ IsInt(g[2].out.v.v.sig) THEN g[1] ELSE acc) ELSE acc,
+                       0, [i \in 1..Len(e.outs) |-> <<i, e.outs[i]>>])
+Second(e, B, p, xq, yq, nb2, T1, i) ==
+  IF e.op = "powf" /\ i # 0 /\ T1.kind = "encl"
+  THEN Let(RefinePowf(B, p, T1, xq, e.y, FFVal(B, e.outs[i].out.v.v)),
+           LAMBDA T : IF T.kind = "exact" THEN T ELSE Truth(e.op, xq, yq, e.n, nb2))
+  ELSE Truth(e.op, xq, yq, e.n, nb2)
+EvalQ1(e, B, p, xq, yq, nb1, T1) ==
+  EvalT(e, B, p, T1, Second(e, B, p, xq, yq, 2 * nb1 + 8, T1, FirstOk(e)), Truth(e.op, xq, yq, e.n, 4 * nb1 + 24))
+EvalQ(e, B, p, xq, yq, nb1) == EvalQ1(e, B, p, xq, yq, nb1, Truth(e.op, xq, yq, e.n, nb1))
 Eval(e) == EvalQ(e, e.base, e.prec, FFVal(e.base, e.x), FFVal(e.base, e.y), FirstBytes(e.base, e.prec))
 
 VARIABLES l, bad, und, dis, cnt
